@@ -166,7 +166,8 @@ def check_r062(fx, rep, cg):
 
 
 def chain_methods(node):
-    return [F.strip_generics(F.callee_def(c) or "").split("::")[-1] for c, _ in F.calls(node)]
+    # calls written by the programmer; the `next()` / `into_iter()` of a desugared `for` loop visit every element
+    return [F.strip_generics(F.callee_def(c) or "").split("::")[-1] for c, _ in F.calls(node) if not ("ForLoop" in str(c.get("exp")) or "Desugaring" in str(c.get("exp")))]
 
 
 def check_r063(fx, rep):
